@@ -2,6 +2,7 @@
 //! usage: trh <ops-file>      (prints the event log, one `case <n>` block per case)
 mod world;
 mod mw_bulkhead;
+mod mw_timelimiter;
 mod mw_chaos;
 mod mw_fallback;
 mod mw_budget;
@@ -34,6 +35,7 @@ fn make(mw: &str, kv: &Kv) -> Option<Box<dyn Mw>> {
         "budget" => Some(Box::new(mw_budget::Adapter::new(kv))),
         "fallback" => Some(Box::new(mw_fallback::Adapter::new(kv))),
         "chaos" => Some(Box::new(mw_chaos::Adapter::new(kv))),
+        "timelimiter" => Some(Box::new(mw_timelimiter::Adapter::new(kv))),
         _ => None,
     }
 }
